@@ -586,17 +586,21 @@ class FreshProcessPool:
 
     kind = "process"
 
-    def __init__(self, workers=2):
-        self.workers = workers
+    def __init__(self, workers=2, start=None):
+        self.workers, self.start = workers, start
 
     def map(self, fn, *iterables):
+        import multiprocessing
         from concurrent.futures import ProcessPoolExecutor, wait
 
         # Executor.map spelled out (submit every call, hand the results back in input order, re-raise on retrieval) so
         # that the pool is shut down only after EVERY future is settled: CPython 3.12's manager thread joins the
         # queue feeder thread while holding the shutdown lock the feeder's pickling-error handler needs — shutting
         # down while a second unpicklable chunk is still being fed deadlocks the interpreter.
-        pp = ProcessPoolExecutor(self.workers, initializer=_quiet_child)
+        if self.start:
+            pp = ProcessPoolExecutor(self.workers, mp_context=multiprocessing.get_context(self.start), initializer=_spawn_init)
+        else:
+            pp = ProcessPoolExecutor(self.workers, initializer=_quiet_child)
         try:
             futs = [pp.submit(fn, *args) for args in zip(*iterables)]
             _, pending = wait(futs, timeout=300)
@@ -642,11 +646,13 @@ def make_executor(spec, rng=None):
         return RealThreadPool(int(a[1]))
     if a[0] == "procs":
         return FreshProcessPool(int(a[1]))
+    if a[0] == "spawn":
+        return FreshProcessPool(int(a[1]), start="spawn")
     raise InfraError(f"bad executor spec {spec}")
 
 
 def executor_kind(spec):
-    return "none" if spec == "none" else ("process" if spec.startswith("procs") else "thread")
+    return "none" if spec == "none" else ("process" if spec.startswith(("procs", "spawn")) else "thread")
 
 
 # ---------------------------------------------------------------------------
@@ -2166,6 +2172,187 @@ def k7_histories(ctx: Ctx, eps, cases):
 
 
 # ---------------------------------------------------------------------------
+# K8 independence of random draws (superposition states, shot counts above and below the samplers' multinomial
+# threshold): sequentially every input gets its own draw; under any executor two different batch positions, two
+# successive calls, or a worker and its parent must not hand back the very same sample
+# ---------------------------------------------------------------------------
+INDEP_MIN_SHOTS, INDEP_MIN_SUPPORT = 2048, 8
+
+
+def _where_is_sampling():
+    import quri_parts.core.sampling as m
+
+    return m.__file__
+
+
+def _where_is_sampling_arg(_):
+    return _where_is_sampling()
+
+
+def _spawn_init():
+    """initializer of a spawn-started worker: the same import overlay as the parent, stderr silenced"""
+    import common as _c
+
+    _c.overlay()
+    _quiet_child()
+
+
+def indep_probabilities(sc):
+    """exact outcome distribution of the scenario circuit: RY(angle_i) on qubit i (a product state), then classical
+    reversible gates (a permutation of the basis states)"""
+    k = len(sc["angles"])
+    p = {}
+    for x in range(2**k):
+        pr = 1.0
+        for i, th in enumerate(sc["angles"]):
+            s = math.sin(th / 2) ** 2
+            pr *= s if (x >> i) & 1 else 1 - s
+        y = c11ref.run_classical(x, [tuple(g) for g in sc["perm"]])
+        p[y] = p.get(y, 0.0) + pr
+    return p
+
+
+def indep_coincidence_bound(sc):
+    """upper bound of P(two independent draws are identical) = sum_x P(x)^2 <= max_x P(x), Stirling/Gaussian value of
+    the multinomial mode: (2 pi N)^(-(k-1)/2) * prod p_i^(-1/2)"""
+    p = [v for v in indep_probabilities(sc).values() if v > 0]
+    return (2 * PI * sc["shots"]) ** (-(len(p) - 1) / 2) * math.prod(v ** -0.5 for v in p)
+
+
+def indep_circuit(sc):
+    from quri_parts.circuit import QuantumCircuit
+
+    c = QuantumCircuit(sc["q"])
+    for i, th in enumerate(sc["angles"]):
+        c.add_RY_gate(i, th)
+    for g in sc["perm"]:
+        if g[0] == "X":
+            c.add_X_gate(g[1])
+        elif g[0] == "CNOT":
+            c.add_CNOT_gate(g[1], g[2])
+        else:
+            c.add_SWAP_gate(g[1], g[2])
+    return c
+
+
+def _spawn_usable(ctx):
+    """a spawn-started worker must import the working tree under test, not the installed copy"""
+    if "spawn_ok" not in ctx.extra:
+        try:
+            where = list(FreshProcessPool(1, start="spawn").map(_where_is_sampling_arg, [0]))[0]
+            ctx.extra["spawn_ok"] = bool(where and where.startswith(REPO + os.sep))
+        except InfraError:
+            raise
+        except Exception as e:  # noqa: BLE001
+            ctx.extra["spawn_ok"] = False
+            where = type(e).__name__
+        ctx.count("independence_spawn", "usable" if ctx.extra["spawn_ok"] else f"unavailable: {where}"[:80])
+    return ctx.extra["spawn_ok"]
+
+
+def k8_plan(ctx: Ctx):
+    rng = ctx.rng
+    out = []
+    for name, wide in (("sampler.vector", False), ("simulator.state_sampler", False), ("sampler.dm", False),
+                       ("sampler.vector", True), ("simulator.state_sampler", True)):
+        for rep in range(ctx.n(1, 3)):
+            k = rng.choice([3, 3, 4])
+            # 11 qubits, 2048 shots: not above 2**max(q, 10) — the backend's own sampling(); otherwise the multinomial branch
+            q, shots = (11, 2048) if wide else (k, rng.choice([2048, 2049, 3000, 5000, 2**31 + 7]))
+            perm = []
+            for _ in range(rng.randint(0, 3)):
+                a, b = rng.sample(range(k), 2)
+                perm.append(rng.choice([("X", a), ("CNOT", a, b), ("SWAP", a, b)]))
+            executors = ["none", "threads:2", "procs:2", "none"] if name != "sampler.dm" else ["none", "threads:2", "none"]
+            if name != "sampler.dm" and not out:
+                executors.insert(3, "spawn:2")
+            out.append({"entry_point": name, "q": q, "angles": [round(rng.uniform(PI / 3, 2 * PI / 3), 6) for _ in range(k)],
+                        "perm": perm, "shots": shots, "n": rng.randint(4, 6), "concurrency": rng.randint(2, 4),
+                        "same_object": rng.random() < 0.5, "executors": executors, "noise": rng.choice(["empty", "bitflip0"])})
+    return out
+
+
+def k8_independence(ctx: Ctx, scenarios):
+    import quri_parts.qulacs.sampler as S
+    import quri_parts.qulacs.simulator as M
+    from quri_parts.core.state import GeneralCircuitQuantumState
+
+    worst = 0.0
+    for sc in scenarios:
+        name, n, c, shots = sc["entry_point"], sc["n"], sc["concurrency"], sc["shots"]
+        probs = indep_probabilities(sc)
+        bound = indep_coincidence_bound(sc)
+        worst = max(worst, bound)
+        eligible = shots >= INDEP_MIN_SHOTS and len(probs) >= INDEP_MIN_SUPPORT and bound < 1e-9
+
+        def item():
+            circ = indep_circuit(sc)
+            return (GeneralCircuitQuantumState(sc["q"], circ) if name == "simulator.state_sampler" else circ, shots)
+
+        draws = []  # (label, canonical counts)
+        for call_no, spec in enumerate(sc["executors"]):
+            if spec.startswith("spawn") and not _spawn_usable(ctx):
+                continue
+            ex = make_executor(spec)
+            try:
+                if name == "sampler.vector":
+                    smp = S.create_qulacs_vector_concurrent_sampler(ex, c)
+                elif name == "sampler.dm":
+                    smp = S.create_qulacs_density_matrix_concurrent_sampler(_noise_model(sc["noise"]), ex, c)
+                else:
+                    smp = M.create_concurrent_vector_state_sampler(ex, c)
+                one = item()
+                res = [dict(r) for r in smp([one] * n if sc.get("same_object") else [item() for _ in range(n)])]
+            except InfraError:
+                raise
+            except Exception as e:  # noqa: BLE001
+                if spec.startswith("spawn"):
+                    ctx.count("independence_spawn", f"unavailable: {type(e).__name__}")
+                    continue
+                ctx.witness(f"batch-raises:{name}", f"{name}: sampling {n} copies of one superposition circuit raises with executor {spec}",
+                            {"independence": sc, "executor": spec}, {"error": f"{type(e).__name__}: {e}"[:300]})
+                continue
+            ctx.count("independence_runs", f"{name}/{spec.split(':')[0]}/{'backend sampling' if sc['q'] > 10 else 'multinomial'}")
+            ctx.evaluations += 1
+            if len(res) != n:
+                ctx.witness(f"result-count:{name}", f"{name}: {len(res)} results for {n} inputs", {"independence": sc, "executor": spec},
+                            {"results": len(res)})
+            for pos, r in enumerate(res):
+                cnt = {int(k): int(v) for k, v in r.items() if v}
+                draws.append((f"call {call_no + 1} ({spec}) position {pos}", cnt))
+                # the marginal of every single result: right total, inside the support, every cell within 6.5 sigma
+                off = [(x, cnt.get(x, 0), round(shots * px, 1)) for x, px in probs.items()
+                       if abs(cnt.get(x, 0) - shots * px) > 6.5 * math.sqrt(shots * px * (1 - px)) + 1]
+                if sum(cnt.values()) != shots or any(x not in probs for x in cnt) or off:
+                    seen = ctx.extra.setdefault("witness_keys", {})
+                    key = f"sampled-distribution:{name}"
+                    seen[key] = seen.get(key, 0) + 1
+                    if seen[key] <= 3:
+                        ctx.witness(key, f"{name}: result {pos} of the batch is not a sample of the circuit's outcome distribution "
+                                         "(total, support, or a cell more than 6.5 sigma off)",
+                                    {"independence": sc, "executor": spec},
+                                    {"counts": str(cnt)[:300], "total": sum(cnt.values()), "cells_off (outcome, got, expected)": off[:5]})
+        ctx.case(("independence", json.dumps(sc, sort_keys=True)), nontrivial=True,
+                 sample={"independence": name, "shots": shots, "support": len(probs), "draws_compared": len(draws),
+                         "coincidence_bound_per_pair": bound})
+        ctx.traces += 1
+        if not eligible:
+            continue
+        twins = [(a, b) for i, (a, x) in enumerate(draws) for (b, y) in draws[:i] if x == y]
+        if twins:
+            ctx.witness(f"identical-draws:{name}",
+                        f"{name}: {len(twins)} pair(s) of DIFFERENT inputs / calls received the bit-identical sample of a distribution with "
+                        f"{len(probs)} outcomes at {shots} shots (probability of one coincidence < {bound:.1e}): the draws of one batch "
+                        "are not independent, as they are on the sequential path",
+                        {"independence": sc}, {"identical": [f"{b} == {a}" for a, b in twins[:6]],
+                                               "sample": str(next(x for lab, x in draws if lab == twins[0][0]))[:300]})
+    if scenarios:
+        ctx.extra["independence"] = {"rule": f"identical count dictionaries at two different batch positions / calls, support >= {INDEP_MIN_SUPPORT}, "
+                                             f"shots >= {INDEP_MIN_SHOTS}", "largest_coincidence_bound_per_pair": worst,
+                                     "bound": "sum_x P(x)^2 <= max_x P(x) ~ (2 pi N)^(-(k-1)/2) prod p_i^(-1/2)"}
+
+
+# ---------------------------------------------------------------------------
 # census
 # ---------------------------------------------------------------------------
 class CallSpy:
@@ -2304,7 +2491,9 @@ def plan_from_replay(path):
     plan, chunk, gs, hist = [], [], [], []
     for w in r.get("witnesses", []) + [{"input": d.get("input")} for d in r.get("disagreements", [])]:
         inp = w.get("input") or {}
-        if "general_sampler_batch" in inp:
+        if "independence" in inp:
+            hist.append(inp)
+        elif "general_sampler_batch" in inp:
             gs.append(inp["general_sampler_batch"])
         elif "history" in inp and "entry_point" in inp:
             hist.append(inp)
@@ -2359,7 +2548,8 @@ def run(ctx: Ctx, replay=None) -> int:
             k2_cases(ctx, eps, rplan)
             if rgs:
                 k6_general_samplers(ctx, rgs)
-            k7_histories(ctx, eps, rhist)
+            k7_histories(ctx, eps, [h for h in rhist if "independence" not in h])
+            k8_independence(ctx, [h["independence"] for h in rhist if "independence" in h])
         return finish(ctx)
     spy = CallSpy()
     with spy:
@@ -2379,6 +2569,8 @@ def run(ctx: Ctx, replay=None) -> int:
                 k6_general_samplers(ctx)
         with ctx.timed("k7_histories"):
             k7_histories(ctx, eps, chist + k7_plan(ctx, eps))
+        with ctx.timed("k8_independence"):
+            k8_independence(ctx, k8_plan(ctx))
         with ctx.timed("k4_audit"):
             bad = k4_audit(ctx, eps)
         broken = bool(ctx.failed_obligations or ctx.disagreements)
